@@ -252,7 +252,7 @@ class Ids:
                         cs.disagree('stage=ident;what=%s_eq_vs_model' % which, impl, model[which][i] == model[which][j],
                                     'the model of %s.__eq__ differs from the implementation' % ('Subarray' if which == 'sub' else 'SpectralWindow'),
                                     kind='tie', entries=[repr(raw[j]), repr(raw[i])])
-        if out[3] != [2 ** 8 - 1, 2 ** 16 - 1, 2 ** 32 - 1]:
+        if len(out) > 3 and out[3] != [2 ** 8 - 1, 2 ** 16 - 1, 2 ** 32 - 1]:     # (an older last-good driver has no such table)
             cs.disagree('stage=ident;what=unsigned_dummy_table_vs_model', out[3], [2 ** b - 1 for b in (8, 16, 32)],
                         'the dummy values of uint8 / 16 / 32 read from dummy_sensor_getter are not the largest values of the types', kind='tie')
         if out[2] != [NAN, -1, 0, 0, -8888]:
@@ -1410,7 +1410,12 @@ def stage_order(cs, parts, c, names, order, rng):
 def stage_scans(cs, ob, rng):
     """scans() / compscans() on the whole against C03's model and spec (indices continue, selection restored)."""
     from props import c03
+    from vh import core
     ctx = cs.ctx
+    if '3' in core.DRIVER.get('left_out', {}):
+        # C03's model (outside C19's proof cone) does not compile on this tree: its tie is C03's alarm, not ours
+        ctx.count('scans_stage_skipped:model_of_C03_left_out')
+        return
     before = len(ctx.disagreements)
     mode = c03.MODES[rng.randrange(2)] if rng.random() < 0.8 else c03.MODES[rng.randrange(len(c03.MODES))]
     hist = c03.stack_history(rng, ob, rng.choice([0, 0, 1, 2]))
